@@ -1488,6 +1488,11 @@ func (h *harness) opSchema() {
 			vk.CountExcluded(kBurntKey)
 			ix.unique = false
 		}
+		if ix.unique && len(m.live()) > 0 && len(m.live()) < len(m.docs) && excl(kMasked) {
+			// known finding K19k: the emptiness check reads only the first primary-index entry; a deleted document hides the live ones
+			vk.CountExcluded(kMasked)
+			ix.unique = false
+		}
 		h.c.Descf("CI:%s", ix)
 		err := h.e.CreateIndex(bg, "admin", colls[0], ix.fields, ix.unique)
 		if ix.unique && len(m.live()) > 0 {
